@@ -34,6 +34,7 @@ type PropSpec struct {
 	Quick    []CaseSpec     `json:"quick"`
 	Thorough []CaseSpec     `json:"thorough"`
 	Opts     map[string]int `json:"opts,omitempty"`
+	OptsThorough map[string]int `json:"opts_thorough,omitempty"`
 	Bounds   string         `json:"bounds,omitempty"`
 	BoundsThorough string   `json:"bounds_thorough,omitempty"`
 	Assumptions []string    `json:"assumptions,omitempty"`
@@ -479,7 +480,16 @@ func main() {
 			bounds = ps.BoundsThorough
 		}
 	}
-	cases := expandCases(specs, ps.Opts)
+	popts := map[string]int{}
+	for k, v := range ps.Opts {
+		popts[k] = v
+	}
+	if *tier == "thorough" {
+		for k, v := range ps.OptsThorough {
+			popts[k] = v
+		}
+	}
+	cases := expandCases(specs, popts)
 	if *only != "" {
 		var f []Case
 		for _, c := range cases {
